@@ -29,6 +29,10 @@ func TestC12_History(t *testing.T) {
 		if rapid.IntRange(0, 2).Draw(rt, "cancelend") == 0 {
 			sc.CancelEnd = rapid.SampledFrom([]string{"socket", "state", "backfill", "slow", "disconnected"}).Draw(rt, "cancelcause")
 		}
+		if rapid.IntRange(0, 4).Draw(rt, "fileall") == 0 {
+			// file backend whose file lists every vBucket of the bucket: what counts are the ASSIGNED vBuckets
+			sc.File, sc.FileAll = true, true
+		}
 		journal("C12", "c12hist", sc)
 		v, labels, _ := runHistory(&sc, known != nil, "C12")
 		journalDone()
